@@ -398,6 +398,9 @@ def explore(prog, case, stats=None, max_paths=50000, budget_s=600, max_viol=2):
         ex = Exec(prog, M, dec, stats)
         ex.world = World()
         ex.range_limit = case.get('range_limit', 64)
+        if ex.range_limit > 64:
+            import sys as _sys
+            _sys.setrecursionlimit(max(_sys.getrecursionlimit(), 60 * ex.range_limit))
         ex.max_steps = max(ex.max_steps, 400 * ex.range_limit)
         ex.attr_entries, ex.attr_matrices = [], {}
         try:
